@@ -419,3 +419,27 @@ seed('c03-n-rrtstar-prune-chains-while', 'C03', [(RRTS, "        for (const auto
 seed('c03-rrtconnect-flip-dropped', 'C03', [(RRTCC, "            if (gsc == TRAPPED)\n                tgi.start = !tgi.start;\n", "")], 'R03k')
 seed('c04-rrtstar-rewire-no-child-push', 'C04', [(RRTS, "                            nbh[i]->parent->children.push_back(nbh[i]);\n", "")], 'R04g')
 seed('c04-rrtstar-rewire-no-detach', 'C04', [(RRTS, "                            // Remove this node from its parent list\n                            removeFromParent(nbh[i]);\n", "")], 'R04g')
+
+# ---- round-3 batch B rules ----------------------------------------------------------------------------------------
+SBLC = 'src/ompl/geometric/planners/sbl/src/SBL.cpp'
+APSC = 'src/ompl/geometric/planners/AnytimePathShortening.cpp'
+RRTX = 'src/ompl/geometric/planners/rrt/src/RRTXstatic.cpp'
+EITC = 'src/ompl/geometric/planners/informedtrees/src/EITstar.cpp'
+AITC = 'src/ompl/geometric/planners/informedtrees/src/AITstar.cpp'
+PDFH = 'src/ompl/datastructures/PDF.h'
+GRIDB = 'src/ompl/datastructures/GridB.h'
+seed('c01-sbl-junction-not-validated', 'C01', [(SBLC, "if (isPathValid(tree, connect) && isPathValid(otherTree, connectOther))", "if (isPathValid(tree, motion) && isPathValid(otherTree, connectOther))")], 'R01l')
+seed('c01-n-sbl-junction-order', 'C01', [(SBLC, "if (isPathValid(tree, connect) && isPathValid(otherTree, connectOther))", "if (isPathValid(otherTree, connectOther) && isPathValid(tree, connect))")], None)
+seed('c01-aps-status-bool', 'C01', [(APSC, "if (status == base::PlannerStatus::EXACT_SOLUTION)", "if (status)")], 'R01m')
+seed('c01-n-aps-status-yoda', 'C01', [(APSC, "if (status == base::PlannerStatus::EXACT_SOLUTION)", "if (base::PlannerStatus::EXACT_SOLUTION == status)")], None)
+seed('c04-rrtx-select-vs-incumbent', 'C04', [(RRTX, "opt_->isCostBetterThan(goalMotion->cost, solution->cost)", "opt_->isCostBetterThan(goalMotion->cost, bestCost_)")], 'R04h')
+seed('c04-n-rrtstar-select-reordered', 'C04', [(RRTS, "                            bestGoalMotion_ = goalMotion;\n                            bestCost_ = bestGoalMotion_->cost;", "                            bestCost_ = goalMotion->cost;\n                            bestGoalMotion_ = goalMotion;")], None)
+seed('c04-eit-edge-best-estimate', 'C04', [(EITC, "const auto edgeCost = objective_->motionCost(edge.source->raw(), edge.target->raw());", "const auto edgeCost = objective_->motionCostBestEstimate(edge.source->raw(), edge.target->raw());")], 'R04i')
+seed('c04-ait-edge-heuristic', 'C04', [(AITC, "const auto edgeCost = objective_->motionCost(parent->getState(), child->getState());", "const auto edgeCost = objective_->motionCostHeuristic(parent->getState(), child->getState());")], 'R04i')
+seed('c04-rrtstar-inccosts-heuristic', 'C04', [(RRTS, "incCosts[i] = opt_->motionCost(nbh[i]->state, motion->state);", "incCosts[i] = opt_->motionCostHeuristic(nbh[i]->state, motion->state);", 0)], 'R04i')
+seed('c04-n-eit-edge-via-local', 'C04', [(EITC, "const auto edgeCost = objective_->motionCost(edge.source->raw(), edge.target->raw());", "const auto trueCost = objective_->motionCost(edge.source->raw(), edge.target->raw());\n                const auto edgeCost = trueCost;")], None)
+seed('c18-window-average-unwindowed', 'C18', [(CCT, "double newCost = ((solutions - 1) * averageCost_ + solutionCost.value()) / solutions;", "double newCost = ((solutions_ - 1) * averageCost_ + solutionCost.value()) / solutions_;")], 'R18g')
+seed('c18-n-window-average-commuted', 'C18', [(CCT, "double newCost = ((solutions - 1) * averageCost_ + solutionCost.value()) / solutions;", "double newCost = (solutionCost.value() + averageCost_ * (solutions - 1)) / solutions;")], None)
+seed('c19-period-first', 'C19', [(PTC, "                if (terminate_)\n                    return true;\n                if (period_ > 0.0)\n                    return evalValue_;", "                if (period_ > 0.0)\n                    return evalValue_;\n                if (terminate_)\n                    return true;")], 'R19f')
+seed('c12-sibling-parity-lost', 'C12', [(PDFH, "if (index + 2 == data_.size() && index % 2 == 0)", "if (index + 2 == data_.size())")], 'R12c')
+seed('c13-border-by-maxneighbors', 'C13', [(GRIDB, "if (!c->border && c->neighbors < GridN<_T>::interiorCellNeighborsLimit_)", "if (!c->border && c->neighbors < GridN<_T>::maxNeighbors_)")], 'R13b')
